@@ -74,52 +74,53 @@ inductive Op where
 
 /-! ## Kernel: multicast source filters of one socket (net/ipv4/igmp.c) -/
 
-/-- `struct ip_mc_socklist` for one group (all memberships of a script live on the one multicast interface). -/
-structure KMemb where
-  group   : Ip
+/-- `struct ip_mc_socklist` of one group (all memberships of a script live on the one multicast interface, so the
+kernel's list keyed by (group, interface) is a finite map from groups). -/
+structure KFilt where
   incl    : Bool          -- sfmode = MCAST_INCLUDE
   srcs    : List Ip       -- sflist entries
   hasList : Bool          -- sflist allocated (stays allocated when the last source is removed in exclude mode)
   deriving DecidableEq, Repr
 
-def findM (ms : List KMemb) (g : Ip) : Option KMemb := ms.find? (·.group == g)
-def replaceM (ms : List KMemb) (m' : KMemb) : List KMemb := ms.map fun m => if m.group == m'.group then m' else m
-def dropM (ms : List KMemb) (g : Ip) : List KMemb := ms.filter (·.group != g)
+abbrev KMembs := Ip → Option KFilt
 
 /-- `ip_mc_join_group_ssm`: EADDRINUSE if already a member. -/
-def joinGroup (ms : List KMemb) (g : Ip) (incl : Bool) : List KMemb × Errc :=
-  if (findM ms g).isSome then (ms, .addrinuse)
-  else ({ group := g, incl := incl, srcs := [], hasList := false } :: ms, .nil)
+def joinGroup (k : KMembs) (g : Ip) (incl : Bool) : KMembs × Errc :=
+  match k g with
+  | some _ => (k, .addrinuse)
+  | none => (upd k g (some { incl := incl, srcs := [], hasList := false }), .nil)
 
 /-- `ip_mc_leave_group`. -/
-def leaveGroup (ms : List KMemb) (g : Ip) : List KMemb × Errc :=
-  if (findM ms g).isSome then (dropM ms g, .nil) else (ms, .addrnotavail)
+def leaveGroup (k : KMembs) (g : Ip) : KMembs × Errc :=
+  match k g with
+  | some _ => (upd k g none, .nil)
+  | none => (k, .addrnotavail)
 
 /-- `ip_mc_source(add, omode, …)`. -/
-def mcSource (ms : List KMemb) (add omodeIncl : Bool) (g s : Ip) : List KMemb × Errc :=
-  match findM ms g with
-  | none => (ms, .inval)                                   -- must have a prior join
-  | some m =>
-    if m.hasList && m.incl != omodeIncl then (ms, .inval)  -- a source filter was set: same mode as before
+def mcSource (k : KMembs) (add omodeIncl : Bool) (g s : Ip) : KMembs × Errc :=
+  match k g with
+  | none => (k, .inval)                                   -- must have a prior join
+  | some f =>
+    if f.hasList && f.incl != omodeIncl then (k, .inval)  -- a source filter was set: same mode as before
     else
       -- "allow mode switches for empty-set filters" — also when the call then fails
-      let m := { m with incl := omodeIncl }
+      let f := { f with incl := omodeIncl }
       if !add then
-        if !m.hasList || !m.srcs.contains s then (replaceM ms m, .addrnotavail)
-        else if m.srcs.length == 1 && omodeIncl then leaveGroup ms g     -- (INCLUDE, empty) == LEAVE_GROUP
-        else (replaceM ms { m with srcs := m.srcs.erase s }, .nil)
+        if !f.hasList || !f.srcs.contains s then (upd k g (some f), .addrnotavail)
+        else if f.srcs.length == 1 && omodeIncl then (upd k g none, .nil)      -- (INCLUDE, empty) == LEAVE_GROUP
+        else (upd k g (some { f with srcs := f.srcs.erase s }), .nil)
       else
-        if m.srcs.contains s then (replaceM ms m, .addrnotavail)         -- address already there is an error
-        else (replaceM ms { m with srcs := s :: m.srcs, hasList := true }, .nil)
+        if f.srcs.contains s then (upd k g (some f), .addrnotavail)             -- address already there is an error
+        else (upd k g (some { f with srcs := s :: f.srcs, hasList := true }), .nil)
 
 /-- `ip_mc_sf_allow` with `IP_MULTICAST_ALL = 0`. -/
-def kAllow (ms : List KMemb) (g src : Ip) : Bool :=
-  match findM ms g with
+def kAllow (k : KMembs) (g src : Ip) : Bool :=
+  match k g with
   | none => false
-  | some m => if !m.hasList then !m.incl else if m.incl then m.srcs.contains src else !m.srcs.contains src
+  | some f => if !f.hasList then !f.incl else if f.incl then f.srcs.contains src else !f.srcs.contains src
 
 /-- The `setsockopt` behind each well-formed membership call. -/
-def kMemb (ms : List KMemb) : MOp → List KMemb × Errc
+def kMemb (ms : KMembs) : MOp → KMembs × Errc
   | .join g => joinGroup ms g false                                     -- IP_ADD_MEMBERSHIP
   | .joinSrc g s =>                                                      -- IP_ADD_SOURCE_MEMBERSHIP
       let r := joinGroup ms g true
@@ -148,14 +149,13 @@ structure Cache where
 structure MSock where
   kind   : Kind
   kern   : Kern                    -- the kernel's option record and bound address
-  membs  : List KMemb
+  membs  : KMembs
   rxq    : List Dgram              -- the kernel's receive queue
   cache  : Cache
   read   : Option (Nat × Nat)      -- a read is registered with the poller; (id, length) of the buffer it will use
   cands  : List (Nat × Nat)        -- buffers designated since the last completion (what the harness inspects)
   broken : Bool                    -- the descriptor number refers to something that is not a socket
   closed : Bool
-  deriving Repr
 
 structure World where
   socks : Nat → Option MSock
@@ -181,7 +181,7 @@ def gettersOf (m : MSock) : Getters :=
     localAddr := m.cache.localAddr }
 
 def freshSock (kind : Kind) (kern : Kern) (cache : Cache) : MSock :=
-  { kind := kind, kern := kern, membs := [], rxq := [], cache := cache, read := none, cands := [], broken := false,
+  { kind := kind, kern := kern, membs := fun _ => none, rxq := [], cache := cache, read := none, cands := [], broken := false,
     closed := false }
 
 def canCreate (w : World) (s : Nat) : Bool := s < maxSock && (w.socks s).isNone
